@@ -151,11 +151,11 @@ class Judge:
         if getattr(e.label, 'value', e.label) != lab:
             self.v('label', t, cards, f'label {e.label!r}, rules say {lab!r}')
         r = self.rep(t, refk, cards)
-        ok = (h == r) and not (h < r) and hash(h) == hash(r)     # the other operators: representative-pairs family
+        ok = (h == r) and not (h < r) and not (h > r) and (h <= r) and (h >= r) and not (h != r) and hash(h) == hash(r)
         self.c['hand_vs_class_representative'] += 1
         if not ok:
             self.v('equal-rank-not-equal', t, cards,
-                   f'same rank as {r!r} by the rules, but ==:{h == r} <:{h < r} hash-equal:{hash(h) == hash(r)}')
+                   f'same rank as {r!r} by the rules, but ==:{h == r} <:{h < r} >:{h > r} <=:{h <= r} >=:{h >= r} hash-equal:{hash(h) == hash(r)}')
 
 
 def run_five(job, J):
